@@ -157,7 +157,8 @@ CLAIMED["C14"] = dict(
     "when _diff strips (no formatter, WS_TAGS / WS_BOTH strip; WS_NONE / WS_TEXT and the CLI's -w do not; C14_flag_table); without "
     "stripping the re-indented tree differs (C14_nostrip_differs); composed with C03: the stripped parses of a document and of its "
     "re-indented version get the empty script in all three match modes, the unstripped ones a non-empty script whenever the "
-    "root's indentation changed (C14_stripped_reindent_empty_script, C14_unstripped_reindent_nonempty_script). PARTIAL: the XML "
+    "root's indentation changed (C14_stripped_reindent_empty_script, C14_unstripped_reindent_nonempty_script); the model of the XML formatter returns "
+    "the left parse itself, without markup, for the two stripped parses (C14_xml_formatter_markup_free). PARTIAL: the real XML "
     "formatter's markup-free output is decided per run by the oracle over the 13-row formatter x flag table through diff_texts "
     "and diff_files; libxml2's blank-node heuristic is modelled and compared with the parser on every run.",
     note="Trusted: Lean kernel and standard axioms; the model of remove_blank_text for the property's document class is validated "
@@ -290,7 +291,7 @@ CLAIMED["C10"] = dict(
     "as in C09; the reject invariant at tree level, moves included (C10_reject_invariant: no handler changes the rejected view of the "
     "working tree - inserted nodes and moved copies dropped, old tags from diff:rename, marked texts read back - so it stays the left "
     "document without its attributes; for the scripts of the model differ with the text engine model inside the formatter model the side conditions - renamed at most once, text / tail marked at most once, each answer rejecting to the current text - are proved, not assumed: C10_differ_script_engine, texts of at most 27000 characters, WS_TEXT normalisation only on texts that are already whitespace-normal); one text update end to end at text level (C10_text_update_reject: rejecting every wrapper spells the old text). "
-    "after finalize, wrappers as elements, the reject-all projection of the output tree is the left document without its attributes (C10_differ_script_output, C09_C10_finalize_reads; unit U9p). PARTIAL: the attribute annotations, text tags, use_replace and WS_TEXT normalisation of texts that are not whitespace-normal are not proved; decided on every run by the reject-all projection of "
+    "after finalize, wrappers as elements, the reject-all projection of the output tree is the left document without its attributes (C10_differ_script_output, C09_C10_finalize_reads; unit U9p), and with the diff:*-attr annotations decoded (Rej.rejAttrs, Fin.rejFTA) every node has the attributes of the left node with the same id, a deleted attribute with a placeholder value (C10_differ_script_output_attrs, C10_pipeline_attrs; names without ':' ';', values without ';'; rests on C17_attribute_named_once: the differ names an attribute at most once per node); no change is unmarked and no mark is spurious (C10_no_unmarked_change, C10_no_spurious_mark). PARTIAL: text tags, use_replace and WS_TEXT normalisation of texts that are not whitespace-normal are not proved; decided on every run by the reject-all projection of "
     "the real output against L (values of deleted attributes not recorded; annotations decoded for names / values free of ';' ':'). "
     "Known finding X1.",
     note=_XMLNOTE,
